@@ -487,14 +487,9 @@ Definition replay_temp (s : kstate) (hd : hdr) (cp : cproof) : pmap * bool :=
       let '(tm, av) := acc in
       let base := match pm_get (v_pc (k_vot s)) (fst e) with Some p => p | None => [] end in
       let '(p', a, _) := merge_sparse KPrecommit (hd_height hd) (cp_round cp) (fst e) (vs_keys (hd_vals hd)) base (snd e) in
-      (pm_set tm (fst e) p', av && a)) (cp_proofs cp) ([], true).
+      (pm_set tm (fst e) p', av && a)) (signed_entries (cp_proofs cp)) ([], true).
 
 Definition replay_finish (s1 : kstate) (hd : hdr) (cp : cproof) (temp : pmap) : res (kstate * N) :=
-  match pm_get temp (hd_hash hd) with
-  | None => Ok (s1, 2)
-  | Some hp =>
-      bind (byz_majority (sm_avail (v_sum (k_vot s1)))) (fun maj =>
-      if proof_power (vs_pows (hd_vals hd)) hp <? maj then Ok (s1, 2) else
       let v := k_vot s1 in
       let pc' := fold_left (fun m e => pm_set m (fst e) (snd e)) temp (v_pc v) in
       let v1 := with_pc v pc' in
@@ -502,8 +497,7 @@ Definition replay_finish (s1 : kstate) (hd : hdr) (cp : cproof) (temp : pmap) : 
       let coll := map_to_sparse (vs_pkh (v_vals v2)) pc' in
       let s2 := log_w (set_rounds (set_vot s1 v2) (rs_overwrite_pc (st_rounds s1) (hd_height hd) (cp_round cp) coll))
                       (WPC (hd_height hd) (cp_round cp) coll) in
-      bind (check_voting_precommit_shift s2) (fun s3 => Ok (s3, 0)))
-  end.
+      bind (check_voting_precommit_shift s2) (fun s3 => Ok (s3, 0)).
 
 Definition site_replay_earlier : string := "handleReplayedHeader: TODO: handle replay for earlier round".
 Definition site_replay_fuel : string := "model: out of fuel in the replay round jump".
@@ -514,14 +508,20 @@ Definition handle_replay' (s0 : kstate) (hd : hdr) (cp : cproof) : res (kstate *
   else
   let s := replay_jumped s0 cp in
   if negb ((v_r (k_vot s) =? cp_round cp) && (v_h (k_vot s) =? hd_height hd)) then Panic site_replay_fuel else
-  if negb (hd_ok hd) then Ok (s, 2)
-  else if negb (hd_height hd =? k_init_h s) && negb (bytes_eqb (hd_prev hd) (chdr_hash s)) then Ok (s, 2)
-  else if negb (valset_equal (hd_vals hd) (v_vals (k_vot s)) && vs_ok (hd_vals hd)) then Ok (s, 2)
-  else if negb (vs_ok (hd_next hd)) then Ok (s, 2)
+  if negb (hd_ok hd) then Ok (s0, 2)
+  else if negb (hd_height hd =? k_init_h s) && negb (bytes_eqb (hd_prev hd) (chdr_hash s)) then Ok (s0, 2)
+  else if negb (valset_equal (hd_vals hd) (v_vals (k_vot s)) && vs_ok (hd_vals hd)) then Ok (s0, 2)
+  else if negb (vs_ok (hd_next hd)) then Ok (s0, 2)
   else
   let '(temp, allv) := replay_temp s hd cp in
-  if negb allv then Ok (s, 2) else
-  bind (replay_insert s hd (cp_round cp)) (fun s1 => replay_finish s1 hd cp temp).
+  if negb allv then Ok (s0, 2) else
+  match pm_get temp (hd_hash hd) with
+  | None => Ok (s0, 2)
+  | Some hp =>
+      bind (byz_majority (sm_avail (v_sum (k_vot s)))) (fun maj =>
+      if proof_power (vs_pows (hd_vals hd)) hp <? maj then Ok (s0, 2) else
+      bind (replay_insert s hd (cp_round cp)) (fun s1 => replay_finish s1 hd cp temp))
+  end.
 
 Lemma handle_replay_eq s0 hd cp : handle_replay s0 hd cp = handle_replay' s0 hd cp.
 Proof. reflexivity. Qed.
@@ -581,12 +581,7 @@ Qed.
 Lemma replay_finish_total s1 hd cp temp : aok s1 ->
   okT (fun sr => pok s1 -> tinv (fst sr)) (replay_finish s1 hd cp temp).
 Proof.
-  intros H. pose proof H as (A&_&_). unfold replay_finish.
-  assert (Hsame : okT (fun sr : kstate * N => pok s1 -> tinv (fst sr)) (Ok (s1, 2)))
-    by (apply okT_ret; intros Hp; split; assumption).
-  destruct (pm_get temp (hd_hash hd)); [|exact Hsame].
-  destruct (maj_ok _ A) as [maj Hm]. rewrite Hm. cbn [bind].
-  destruct (_ <? maj); [exact Hsame|]. cbv zeta.
+  intros H. unfold replay_finish. cbv zeta.
   match goal with |- okT _ (bind (check_voting_precommit_shift ?X) _) => set (s2 := X) end.
   assert (A2 : aok s2).
   { eapply aok_frame; [| | |exact H]; unfold s2;
@@ -618,8 +613,8 @@ Proof.
   assert (Hpos : (v_r (k_vot s) =? cp_round cp) && (v_h (k_vot s) =? hd_height hd) = true).
   { rewrite Er, Eh, Hh, !N.eqb_refl. reflexivity. }
   rewrite Hpos. cbn [negb].
-  assert (Hsame : forall r0, okT (fun sr : kstate * N => pow_ok (hd_next hd) -> tinv (fst sr)) (Ok (s, r0)))
-    by (intros r0; apply okT_ret; intros _; exact HTs).
+  assert (Hsame : forall r0, okT (fun sr : kstate * N => pow_ok (hd_next hd) -> tinv (fst sr)) (Ok (s0, r0)))
+    by (intros r0; apply okT_ret; intros _; exact HT).
   destruct (hd_ok hd); cbn [negb]; [|apply Hsame].
   destruct (negb (hd_height hd =? k_init_h s) && negb (bytes_eqb (hd_prev hd) (chdr_hash s))); [apply Hsame|].
   destruct (valset_equal (hd_vals hd) (v_vals (k_vot s)) && vs_ok (hd_vals hd)) eqn:Hveq;
@@ -631,6 +626,9 @@ Proof.
   destruct (vs_ok (hd_next hd)); cbn [negb]; [|apply Hsame].
   destruct (replay_temp s hd cp) as [temp allv].
   destruct allv; cbn [negb]; [|apply Hsame].
+  destruct (pm_get temp (hd_hash hd)); [|apply Hsame].
+  destruct (maj_ok _ (proj1 (proj1 HTs))) as [maj Hm]. rewrite Hm. cbn [bind].
+  destruct (_ <? maj); [apply Hsame|].
   eapply okT_bind; [apply replay_insert_total; exact HTs|]. cbv beta. intros s1 (A1&P1).
   eapply okT_mono; [apply replay_finish_total; exact A1|].
   cbv beta. intros sr Hsr Hn. apply Hsr, P1. split; [exact Hvals|exact Hn].
@@ -948,7 +946,7 @@ Definition ops_ph_round1 : list op := [OpPH (ex_ph ex_vs ex_vs); OpPrecommit (ex
 
 Example replay_store_refused_is_ok :
   reachable_a 1 ex_vs (state_after ops_ph_round1) /\
-  exists s', step (state_after ops_ph_round1) (OpReplay (ex_hdr ex_vs ex_vs) (mk_cproof 1 [1] [])) = Ok (s', 2) /\
+  exists s', step (state_after ops_ph_round1) (OpReplay (ex_hdr ex_vs ex_vs) (mk_cproof 1 [1] [([9], [mk_ssig (keyid_encode 0) (SVote 7 KPrecommit 1 1 [9])])])) = Ok (s', 0) /\
              In (WPH (fake_ph (ex_hdr ex_vs ex_vs) 1)) (st_log s').
 Proof.
   split; [apply state_after_reachable_a; vm_compute; reflexivity|].
